@@ -421,6 +421,7 @@ func (w *World) execInstr(fr *Frame, st *State, ins ssa.Instruction) {
 		}
 		if fa, ok := ins.Addr.(*ssa.FieldAddr); ok {
 			w.fieldStoreAsserts(fr, st, fa, v)
+			w.fieldGuardCheck(fr, st, fa, true)
 		}
 		if l := w.locOf(addr, ins.Addr.Type()); l != nil {
 			switch l.kind {
@@ -639,6 +640,9 @@ func (w *World) execUnOp(fr *Frame, st *State, ins *ssa.UnOp) {
 		if isDeferStack(ins.Type()) {
 			fr.vals[ins] = &Val{T: intLit(0), Typ: ins.Type()}
 			return
+		}
+		if fa, ok := ins.X.(*ssa.FieldAddr); ok {
+			w.fieldGuardCheck(fr, st, fa, false)
 		}
 		v := w.loadPtr(st, x, ins.X.Type())
 		// recover static knowledge about function values
@@ -904,6 +908,45 @@ func (w *World) fieldStoreAsserts(fr *Frame, st *State, fa *ssa.FieldAddr, v *Va
 	}
 }
 
+// fieldGuardCheck emits the access-discipline obligation of a guarded struct
+// field for a direct load (write=false) or store (write=true), in any frame.
+func (w *World) fieldGuardCheck(fr *Frame, st *State, fa *ssa.FieldAddr, write bool) {
+	if w.muted > 0 {
+		return
+	}
+	pt := deref(fa.X.Type())
+	stt, ok := pt.Underlying().(*types.Struct)
+	if !ok {
+		return
+	}
+	n, ok := pt.(*types.Named)
+	if !ok || n.Obj().Pkg() == nil {
+		return
+	}
+	name := n.Obj().Name() + "." + stt.Field(fa.Field).Name()
+	for _, g := range w.specs.Guards {
+		if g.Field != name || g.Pkg != n.Obj().Pkg().Path() {
+			continue
+		}
+		pk := w.l.All[g.Pkg]
+		if pk == nil || pk.Types == nil {
+			continue
+		}
+		top := fr
+		for top.parent != nil {
+			top = top.parent
+		}
+		env := &CEnv{w: w, pkg: pk.Types, vars: map[string]*Val{"object": w.val(fr, st, fa.X)}, cur: st, old: st}
+		cond, what := g.Read, "read"
+		if write {
+			cond, what = g.Write, "write"
+		}
+		w.callOrd["fguard:"+name+what]++
+		o := w.oblige("guard", fmt.Sprintf("fieldguard.%s.%s.%d", name, what, w.callOrd["fguard:"+name+what]), st.cond, w.evalBool(env, cond), true, g.Props)
+		o.Pos = g.File
+	}
+}
+
 // guardCheck emits the lock-discipline obligations of guarded package-level
 // maps for a lookup (write=false) or update (write=true) of map value m, in
 // any frame (inlined helpers included).
@@ -912,6 +955,9 @@ func (w *World) guardCheck(fr *Frame, st *State, mapT types.Type, m Term, write 
 		return
 	}
 	for _, g := range w.specs.Guards {
+		if g.Field != "" {
+			continue
+		}
 		pk := w.l.All[g.Pkg]
 		if pk == nil || pk.Types == nil {
 			continue
